@@ -6,7 +6,7 @@ class C03(Spec):
     drv = "drv_c03"
     harness = "h_c03"
     lean_deps = ("C01", "C02")
-    required_theorems = ("C03.proof_complete", "C03.proof_complete_bytes", "C03.proof_sound", "C03.proof_sound_located",
+    required_theorems = ("C03.proof_complete", "C03.proof_complete_bytes", "C03.proof_sound",
                          "C03.verify_other_root", "C03.verify_total", "C03.verify_membership", "C03.forgery_rejected",
                          "C03.membership_forgery_old", "C03.membership_forgery_value_old", "C03.branch_binds_child",
                          "C03.own_record_is_no_proof", "C03.fill_only_empty_side_forgery")
@@ -14,7 +14,7 @@ class C03(Spec):
                   "32-byte outputs: completeness — for every key found in a hashed search tree (hashed under any configuration, "
                   "C02.hashNode_Hashed) constructProof succeeds and Proof.Verify accepts it with the stored value against the "
                   "tree's root (proof_complete), and at byte level the bytes Tree.Proof emits are accepted by VerifyKVPairProof including the proto3 Unmarshal (proof_complete_bytes, with a proved encode/decode round trip); soundness — the same proof bytes are never accepted for two different "
-                  "(key,value) pairs against one root unless an explicit hash collision exists (proof_sound, using a proved "
+                  "(key,value) pairs against one root unless two of the strings hashed by the two verification runs collide (proof_sound, located: CollisionIn H (verifyTrace ++ verifyTrace), using a proved "
                   "injectivity of the LeafNode/InnerNode encodings), and never against another root (verify_other_root); "
                   "undecodable bytes are rejected and the verifier has no panic outcome (verify_total). "
                   "Membership soundness (verify_membership): ANY bytes accepted for (k,v) against the root of a hashed search tree "
@@ -38,12 +38,13 @@ class C03(Spec):
                   "arbitrary wire-shaped byte strings go to VerifyKVPairProof under recover; "
                   "accept/reject equals the model's (its proto3 decoder mirrors protobuf-go's field loop) and the predicate "
                   "(accept honest, reject other value/key/root, never panic) is evaluated on the implementation.")
-    level_note = ("Byte-level completeness assumes the tree fits the Go types (int32 height/size, node keys < 2^32 bytes: `Fits`). "
+    level_note = ("Review follow-up: all collision disjuncts are located (CollisionIn over verifyTrace / stepPre / the two encodings); verify_total is now about verifyKVPairProofP, the verifier with the Go slice expressions h[len-32:] given an explicit panic outcome (run by the driver): it always returns .ok of the Bool-valued verifier; proto.Unmarshal not panicking / allocating every element is covered by the differential run on arbitrary bytes only. Completeness needs Hashed, which a tree loaded under enableMVCC does not satisfy (values elided): the completeness theorems cover prefix/pruning configurations, as the property quantifies; load-then-prove is tied differentially. "
+                  "Byte-level completeness assumes the tree fits the Go types (int32 height/size, node keys < 2^32 bytes: `Fits`). "
                   "The Collision disjunct is an explicit pair of distinct pre-images located among the strings actually hashed "
                   "(reduction), not an injectivity assumption. A proof whose sibling hash is prefixed with "
                   "junk still verifies (last 32 bytes used) — documented, not a violation.")
     assumptions = (
-        "hash function with 32-byte outputs (SHA-256); soundness concludes '... or Collision H'",
+        "hash function with 32-byte outputs (SHA-256); soundness concludes '... or CollisionIn H <explicit finite list of the strings hashed>'",
         "protobuf-go Unmarshal behaves as the modelled field loop (compared on ~10^4 arbitrary byte strings per run)",
     )
 
